@@ -42,6 +42,7 @@ type spec struct {
 	Cursor []string // methods translated to the cursor IR of Model/SeqConc.v
 	Loops  []string // page loops (memory.mProtectCrossPage)
 	Shapes []string // step order of memory.WriteTo
+	SysProts []string // step order of a writer that calls mprotect through syscall.Syscall (memory.writeTo, the fallback)
 	Orders map[string][]string // function -> callees whose call order is emitted
 	Erro   bool                // emit the Traceable table of package erro
 	Pure   map[string][]string // name -> root functions whose transitive package-local writes are emitted
@@ -99,7 +100,7 @@ var specs = []spec{
 	{Out: "UnpatchCallersProxy", Arch: "amd64", Pkg: "./internal/proxy", MethodCallers: map[string][3]string{"proxy_guard_unpatch": {"internal/patch", "Guard", "Unpatch"}}},
 	{Out: "X86Table", Arch: "amd64", Pkg: "./internal/arch/x86asm", X86Table: true},
 	{Out: "A64Table", Arch: "amd64", Pkg: "./internal/arch/arm64asm", A64Table: true},
-	{Out: "Page", Arch: "amd64", Pkg: "./internal/bytecode/memory", Funcs: []string{"PageStart"}, Loops: []string{"mProtectCrossPage"}, Shapes: []string{"WriteTo"}},
+	{Out: "Page", Arch: "amd64", Pkg: "./internal/bytecode/memory", Funcs: []string{"PageStart"}, Loops: []string{"mProtectCrossPage"}, Shapes: []string{"WriteTo"}, SysProts: []string{"writeTo"}},
 }
 
 type result struct {
@@ -152,7 +153,7 @@ func runSpec(repo, out string, sp spec) result {
 	if len(sp.Cursor) > 0 {
 		sb.WriteString("From Goom Require Import Model.SeqConc.\n")
 	}
-	if len(sp.Shapes) > 0 {
+	if len(sp.Shapes) > 0 || len(sp.SysProts) > 0 {
 		sb.WriteString("From Goom Require Import Model.WriteTo.\n")
 	}
 	if len(sp.Orders) > 0 || sp.Erro || len(sp.Pure) > 0 || len(sp.Lits) > 0 || len(sp.Locks) > 0 || len(sp.MethodCallers) > 0 || sp.A64Table || sp.X86Table || len(sp.Skeletons) > 0 {
@@ -350,6 +351,16 @@ func runSpec(repo, out string, sp spec) result {
 	}
 	for _, fn := range sp.Shapes {
 		s, err := trWriteToShape(pkg, fn)
+		if err != nil {
+			res.Failed[fn] = err.Error()
+			fmt.Fprintf(&sb, "(* go2v: %s not translated: %s *)\n\n", fn, strings.ReplaceAll(err.Error(), "*)", "* )"))
+			continue
+		}
+		sb.WriteString(s)
+		res.OK = append(res.OK, fn)
+	}
+	for _, fn := range sp.SysProts {
+		s, err := trSyscallProtShape(pkg, fn)
 		if err != nil {
 			res.Failed[fn] = err.Error()
 			fmt.Fprintf(&sb, "(* go2v: %s not translated: %s *)\n\n", fn, strings.ReplaceAll(err.Error(), "*)", "* )"))
